@@ -141,7 +141,7 @@ func (c *ClientFingerprintConfiguration) marshal(config *Config) ([]byte, error)
 			if err != nil {
 				return nil, err
 			}
-			copy(head[start:start+4], t)
+			copy(head[start:start+4], t[len(t)-4:])
 			start = start + 4
 		}
 		_, err := io.ReadFull(config.rand(), head[start:38])
